@@ -15,6 +15,21 @@ def run_group(group, tier, seed):
            "harnesses": 0, "harnesses_ok": 0, "wall_s": 0, "note": "", "fns": g.get("fns", []),
            "trusted": g.get("trusted", []), "bounded": g.get("bounded")}
     t0 = time.time()
+    # evaluation tooling only (env VERIF_EVAL_CACHE, never set by a registered command): same sources + same group = same result
+    kcache = None
+    if os.environ.get("VERIF_EVAL_CACHE"):
+        import hashlib
+        hsh = hashlib.sha256()
+        rp = os.path.realpath(os.environ.get("VERIF_REPO", "/repo"))
+        for root, _, files in sorted(os.walk(os.path.join(rp, "src"))):
+            for f in sorted(files):
+                hsh.update(f.encode()); hsh.update(open(os.path.join(root, f), "rb").read())
+        for f in ("Cargo.toml",):
+            hsh.update(open(os.path.join(rp, f), "rb").read())
+        os.makedirs(os.environ["VERIF_EVAL_CACHE"], exist_ok=True)
+        kcache = os.path.join(os.environ["VERIF_EVAL_CACHE"], "kani-%s-%s-%s.json" % (group, tier, hsh.hexdigest()[:16]))
+        if os.path.exists(kcache):
+            return json.load(open(kcache))
     # runs against a scratch copy of the repository (evaluation of seeded changes, env VERIF_REPO) use a copy of the
     # harness crate whose path dependency points at that copy; registered checks always analyse /repo itself
     global KDIR
@@ -93,6 +108,9 @@ def run_group(group, tier, seed):
     if nfail and not res["violations"]:
         res["violations"].append({"harness": "(unknown)", "failed_checks": re.findall(r"Failed Checks: (.*)", out)[:6], "concrete_input": None})
     res["samples"] = ["kani harness " + h for h in harnesses[:6]]
+    if kcache:
+        try: json.dump(res, open(kcache, "w"))
+        except Exception: pass
     return res
 
 
